@@ -24,13 +24,14 @@ theorem exp_le_lower (x : TwoFloat) (h : (x.hi <=. explog.EXP_LOWER_LIMIT) = tru
   unfold TwoFloat.exp
   simp only [h, if_true]
 
+set_option exponentiation.threshold 1100 in
 /-- overflow: at or above the upper limit the result is (+inf, 0) -/
 theorem exp_ge_upper (x : TwoFloat) (h : (x.hi >=. explog.EXP_UPPER_LIMIT) = true) :
     TwoFloat.exp x = ⟨F64.INFINITY, f64lit 0⟩ := by
   have hl : (x.hi <=. explog.EXP_LOWER_LIMIT) = false := by
     rw [EXP_LOWER_LIMIT_val]
     rw [EXP_UPPER_LIMIT_val] at h
-    exact Ident.f64_ge_ge x.hi _ (by decide) h
+    exact Ident.f64_ge_ge x.hi _ (Nat.mul_pos (by decide) (Nat.two_pow_pos 1074)) h
   unfold TwoFloat.exp
   simp [hl, h]
 
@@ -140,10 +141,11 @@ theorem powf_cases (x y : TwoFloat) :
   · cases hs : TwoFloat.is_sign_positive x
     · cases hi : (((F64.modf y.hi).1 !=. f64lit 0) || ((F64.modf y.lo).1 !=. f64lit 0))
       · rw [powf_neg_base_int x y hx hy hs hi]
-        simp only
-        split
-        · exact Or.inr (Or.inr (Or.inr (Or.inr (Or.inl rfl))))
-        · exact Or.inr (Or.inr (Or.inr (Or.inr (Or.inr rfl))))
+        dsimp only
+        generalize (if (F64.trunc y.lo ==. f64lit 0) = true then F64.trunc y.hi else F64.trunc y.lo) = t
+        cases (F64.rem t (f64lit 0x4000000000000000) ==. f64lit 0)
+        · exact Or.inr (Or.inr (Or.inr (Or.inr (Or.inr (by simp)))))
+        · exact Or.inr (Or.inr (Or.inr (Or.inr (Or.inl (by simp)))))
       · exact Or.inl (powf_neg_base_nonint x y hx hy hs hi)
     · exact Or.inr (Or.inr (Or.inr (Or.inl (powf_pos_base x y hx hy hs))))
   · exact Or.inr (Or.inr (Or.inl (powf_zero_exponent x y hx hy)))
@@ -195,6 +197,27 @@ theorem powf_zero_two : TwoFloat.powf ⟨F64.zero, F64.zero⟩ ⟨f64lit 0x40000
   decide +kernel
 theorem powf_neg_half :
     TwoFloat.powf ⟨f64lit 0xc000000000000000, F64.zero⟩ ⟨f64lit 0x3fe0000000000000, F64.zero⟩ = TwoFloat.NAN := by
+  decide +kernel
+
+/-- exp2 at integers is an exact power of two: 2^10, 2^-1022 (the smallest normal), 2^1023 -/
+theorem exp2_ten : TwoFloat.exp2 ⟨f64lit 0x4024000000000000, F64.zero⟩ = ⟨f64lit 0x4090000000000000, F64.zero⟩ := by
+  decide +kernel
+theorem exp2_minus_1022 : TwoFloat.exp2 ⟨f64lit 0xc08ff00000000000, F64.zero⟩ = TwoFloat.MIN_POSITIVE := by
+  decide +kernel
+theorem exp2_1023 : TwoFloat.exp2 ⟨f64lit 0x408ff80000000000, F64.zero⟩ = TwoFloat.INFINITY := by
+  decide +kernel
+theorem exp2_minus_1100 : TwoFloat.exp2 ⟨f64lit 0xc091300000000000, F64.zero⟩ = ⟨F64.zero, F64.zero⟩ := by
+  decide +kernel
+
+/-- (−2)^3 = −8: the sign comes from the parity of the integer exponent -/
+theorem powf_neg_two_cubed :
+    TwoFloat.powf ⟨f64lit 0xc000000000000000, F64.zero⟩ ⟨f64lit 0x4008000000000000, F64.zero⟩
+      = ⟨f64lit 0xc020000000000000, F64.negZero⟩ := by
+  decide +kernel
+
+/-- the full pipeline on a non-trivial argument, in the kernel: `exp(1)` is bit-for-bit the published
+constant `consts::E`, and it passes the panic-freedom predicate -/
+example : TwoFloat.exp ⟨F64.one, F64.zero⟩ = consts.E ∧ TwoFloat.exp.pf ⟨F64.one, F64.zero⟩ = true := by
   decide +kernel
 
 end C14
